@@ -99,12 +99,12 @@ pub struct RawSchema {
     multipleOf: Option<f64>,
     #[serde(skip_serializing_if = "Option::is_none")]
     maximum: Option<f64>,
-    #[serde(skip_serializing_if = "is_false")]
-    exclusiveMaximum: bool,
+    #[serde(skip_serializing_if = "Option::is_none")]
+    exclusiveMaximum: Option<f64>,
     #[serde(skip_serializing_if = "Option::is_none")]
     minimum: Option<f64>,
-    #[serde(skip_serializing_if = "is_false")]
-    exclusiveMinimum: bool,
+    #[serde(skip_serializing_if = "Option::is_none")]
+    exclusiveMinimum: Option<f64>,
 }
 impl<T: Type::SchemaType> From<Schema<T>> for RawSchema {
     fn from(schema: Schema<T>) -> Self {
@@ -236,9 +236,9 @@ const _: (/* constructors */) = {
         /* number,integer definition */
         multipleOf:       None,
         maximum:          None,
-        exclusiveMaximum: false,
+        exclusiveMaximum: None,
         minimum:          None,
-        exclusiveMinimum: false,
+        exclusiveMinimum: None,
     };
 
     impl Schema<Type::string> {
@@ -456,8 +456,7 @@ impl Schema<Type::number> {
         self
     }
     pub fn exclusiveMaximum(mut self, maximum: impl Into<f64>) -> Self {
-        self.raw.maximum = Some(maximum.into());
-        self.raw.exclusiveMaximum = true;
+        self.raw.exclusiveMaximum = Some(maximum.into());
         self
     }
     pub fn minimum(mut self, minimum: impl Into<f64>) -> Self {
@@ -465,8 +464,7 @@ impl Schema<Type::number> {
         self
     }
     pub fn exclusiveMinimum(mut self, minimum: impl Into<f64>) -> Self {
-        self.raw.minimum = Some(minimum.into());
-        self.raw.exclusiveMinimum = true;
+        self.raw.exclusiveMinimum = Some(minimum.into());
         self
     }
 }
@@ -484,8 +482,7 @@ impl Schema<Type::integer> {
         self
     }
     pub fn exclusiveMaximum(mut self, maximum: i32) -> Self {
-        self.raw.maximum = Some(maximum.into());
-        self.raw.exclusiveMaximum = true;
+        self.raw.exclusiveMaximum = Some(maximum.into());
         self
     }
     pub fn minimum(mut self, minimum: i32) -> Self {
@@ -493,8 +490,7 @@ impl Schema<Type::integer> {
         self
     }
     pub fn exclusiveMinimum(mut self, minimum: i32) -> Self {
-        self.raw.minimum = Some(minimum.into());
-        self.raw.exclusiveMinimum = true;
+        self.raw.exclusiveMinimum = Some(minimum.into());
         self
     }
 }
